@@ -16,27 +16,28 @@ Inductive snap :=
         tips tips_floor tips_scaled tips_entries
         dispute bridge tbr feecoll
         bonded bonded_ledger notbonded notbonded_ledger : Z)
-       (shares_pos tokens_nonneg credits_nonneg : bool).
+       (shares_pos tokens_nonneg credits_nonneg records_sum : bool).
 
-Definition sp_supply s := let 'Snap x _ _ _ _ _ _ _ _ _ _ _ _ _ _ _ _ _ _ := s in x.
-Definition sp_balsum s := let 'Snap _ x _ _ _ _ _ _ _ _ _ _ _ _ _ _ _ _ _ := s in x.
-Definition sp_oracle s := let 'Snap _ _ x _ _ _ _ _ _ _ _ _ _ _ _ _ _ _ _ := s in x.
-Definition sp_oracle_owed s := let 'Snap _ _ _ x _ _ _ _ _ _ _ _ _ _ _ _ _ _ _ := s in x.
-Definition sp_tips s := let 'Snap _ _ _ _ x _ _ _ _ _ _ _ _ _ _ _ _ _ _ := s in x.
-Definition sp_tips_floor s := let 'Snap _ _ _ _ _ x _ _ _ _ _ _ _ _ _ _ _ _ _ := s in x.
-Definition sp_tips_scaled s := let 'Snap _ _ _ _ _ _ x _ _ _ _ _ _ _ _ _ _ _ _ := s in x.
-Definition sp_tips_entries s := let 'Snap _ _ _ _ _ _ _ x _ _ _ _ _ _ _ _ _ _ _ := s in x.
-Definition sp_dispute s := let 'Snap _ _ _ _ _ _ _ _ x _ _ _ _ _ _ _ _ _ _ := s in x.
-Definition sp_bridge s := let 'Snap _ _ _ _ _ _ _ _ _ x _ _ _ _ _ _ _ _ _ := s in x.
-Definition sp_tbr s := let 'Snap _ _ _ _ _ _ _ _ _ _ x _ _ _ _ _ _ _ _ := s in x.
-Definition sp_feecoll s := let 'Snap _ _ _ _ _ _ _ _ _ _ _ x _ _ _ _ _ _ _ := s in x.
-Definition sp_bonded s := let 'Snap _ _ _ _ _ _ _ _ _ _ _ _ x _ _ _ _ _ _ := s in x.
-Definition sp_bonded_ledger s := let 'Snap _ _ _ _ _ _ _ _ _ _ _ _ _ x _ _ _ _ _ := s in x.
-Definition sp_notbonded s := let 'Snap _ _ _ _ _ _ _ _ _ _ _ _ _ _ x _ _ _ _ := s in x.
-Definition sp_notbonded_ledger s := let 'Snap _ _ _ _ _ _ _ _ _ _ _ _ _ _ _ x _ _ _ := s in x.
-Definition sp_shares_pos s := let 'Snap _ _ _ _ _ _ _ _ _ _ _ _ _ _ _ _ x _ _ := s in x.
-Definition sp_tokens_nonneg s := let 'Snap _ _ _ _ _ _ _ _ _ _ _ _ _ _ _ _ _ x _ := s in x.
-Definition sp_credits_nonneg s := let 'Snap _ _ _ _ _ _ _ _ _ _ _ _ _ _ _ _ _ _ x := s in x.
+Definition sp_supply s := let 'Snap x _ _ _ _ _ _ _ _ _ _ _ _ _ _ _ _ _ _ _ := s in x.
+Definition sp_balsum s := let 'Snap _ x _ _ _ _ _ _ _ _ _ _ _ _ _ _ _ _ _ _ := s in x.
+Definition sp_oracle s := let 'Snap _ _ x _ _ _ _ _ _ _ _ _ _ _ _ _ _ _ _ _ := s in x.
+Definition sp_oracle_owed s := let 'Snap _ _ _ x _ _ _ _ _ _ _ _ _ _ _ _ _ _ _ _ := s in x.
+Definition sp_tips s := let 'Snap _ _ _ _ x _ _ _ _ _ _ _ _ _ _ _ _ _ _ _ := s in x.
+Definition sp_tips_floor s := let 'Snap _ _ _ _ _ x _ _ _ _ _ _ _ _ _ _ _ _ _ _ := s in x.
+Definition sp_tips_scaled s := let 'Snap _ _ _ _ _ _ x _ _ _ _ _ _ _ _ _ _ _ _ _ := s in x.
+Definition sp_tips_entries s := let 'Snap _ _ _ _ _ _ _ x _ _ _ _ _ _ _ _ _ _ _ _ := s in x.
+Definition sp_dispute s := let 'Snap _ _ _ _ _ _ _ _ x _ _ _ _ _ _ _ _ _ _ _ := s in x.
+Definition sp_bridge s := let 'Snap _ _ _ _ _ _ _ _ _ x _ _ _ _ _ _ _ _ _ _ := s in x.
+Definition sp_tbr s := let 'Snap _ _ _ _ _ _ _ _ _ _ x _ _ _ _ _ _ _ _ _ := s in x.
+Definition sp_feecoll s := let 'Snap _ _ _ _ _ _ _ _ _ _ _ x _ _ _ _ _ _ _ _ := s in x.
+Definition sp_bonded s := let 'Snap _ _ _ _ _ _ _ _ _ _ _ _ x _ _ _ _ _ _ _ := s in x.
+Definition sp_bonded_ledger s := let 'Snap _ _ _ _ _ _ _ _ _ _ _ _ _ x _ _ _ _ _ _ := s in x.
+Definition sp_notbonded s := let 'Snap _ _ _ _ _ _ _ _ _ _ _ _ _ _ x _ _ _ _ _ := s in x.
+Definition sp_notbonded_ledger s := let 'Snap _ _ _ _ _ _ _ _ _ _ _ _ _ _ _ x _ _ _ _ := s in x.
+Definition sp_shares_pos s := let 'Snap _ _ _ _ _ _ _ _ _ _ _ _ _ _ _ _ x _ _ _ := s in x.
+Definition sp_tokens_nonneg s := let 'Snap _ _ _ _ _ _ _ _ _ _ _ _ _ _ _ _ _ x _ _ := s in x.
+Definition sp_credits_nonneg s := let 'Snap _ _ _ _ _ _ _ _ _ _ _ _ _ _ _ _ _ _ x _ := s in x.
+Definition sp_records_sum s := let 'Snap _ _ _ _ _ _ _ _ _ _ _ _ _ _ _ _ _ _ _ x := s in x.
 
 Inductive hstep :=
 | Step (op : string) (signer result : Z) (params : list Z) (after : snap) (decreased : list (Z * string * string)).
@@ -170,7 +171,8 @@ Definition c05_inv (s : snap) : issues :=
   spec_if (sp_bonded_ledger s <=? sp_bonded s) "bonded pool holds less than the bonded validators' tokens"
   ++ spec_if (sp_notbonded_ledger s <=? sp_notbonded s) "not-bonded pool holds less than unbonding entries and not-bonded validators' tokens"
   ++ spec_if (sp_shares_pos s) "a delegation without positive shares exists"
-  ++ spec_if (sp_tokens_nonneg s) "a validator has negative tokens".
+  ++ spec_if (sp_tokens_nonneg s) "a validator has negative tokens"
+  ++ spec_if (sp_records_sum s) "the per-backer record of stake taken for a dispute fee does not sum to the recorded total".
 
 (* what the pools hold beyond the ledger *)
 Definition pool_slack (s : snap) : Z := (sp_bonded s - sp_bonded_ledger s) + (sp_notbonded s - sp_notbonded_ledger s).
